@@ -107,7 +107,8 @@ IDS = ['id', 'a-long-identifier-with-many-characters-%d', 'é%d', 'Ωμέγα-%d
 
 def random_history(seed):
     rng = random.Random(seed)
-    n = rng.randint(5, 40)
+    big = seed % 8 == 0          # large trees with long ids: expansion states of several kilobytes
+    n = rng.randint(70, 160) if big else rng.randint(5, 40)
     parent = [0]
     for i in range(2, n + 1):
         parent.append(rng.randint(max(1, i - 4), i - 1))
@@ -127,6 +128,8 @@ def random_history(seed):
     for old in order:
         par2[ren[old] - 1] = ren.get(parent[old - 1], 0) if old != 1 else 0
     style = rng.choice(IDS)
+    if big:
+        style = rng.choice(['a-rather-long-identifier-as-found-in-real-sites-with-many-characters-%d', 'Ωμέγα-' * 8 + '%d'])
     ids = [(style % i) if '%d' in style else style + str(i) for i in range(1, n + 1)]
     nodes = tree.build(par2, ids)
     num = {nd.nid: i + 1 for i, nd in enumerate(nodes)}
@@ -139,8 +142,10 @@ def random_history(seed):
                       'links': sorted([num[k], 'c' if v[0] == 'tree-c' else 'e'] for k, v in o['links'].items())})
     rec('init', 0, o)
     err = None
-    for _ in range(rng.randint(5, 40)):
+    for step in range(rng.randint(5, 40)):
         c = rng.random()
+        if big and step == 0:
+            c = 0.0
         try:
             if c < 0.06:
                 o = tree.request(nodes, o['cookie'], special='expand_all')
@@ -166,7 +171,13 @@ def codec_case(seed):
     rng = random.Random(seed)
     k = rng.randint(0, 60)
     alphabet = 'abcdefghijklmnopqrstuvwxyz0123456789é日'
-    state = [[''.join(rng.choice(alphabet) for _ in range(rng.randint(1, 9))), []] for _ in range(k)]
+    maxid = 9
+    if seed % 10 == 0:           # any state size: up to a few hundred kilobytes of JSON
+        k = rng.choice((100, 300, 1000, 3000))
+        maxid = rng.choice((9, 40, 80))
+    state = [[''.join(rng.choice(alphabet) for _ in range(rng.randint(1, maxid))), []] for _ in range(k)]
+    if seed % 20 == 0:           # and nested
+        state = [[e[0], state[:3]] for e in state[:50]]
     state = [['root', state]]
     n = len(TreeTag.compress(json.dumps(state)))
     try:
